@@ -1628,6 +1628,30 @@ func (h *c02) eipClasses() {
 			if !f.CanSet() {
 				continue
 			}
+			if f.Kind() == reflect.String || f.Kind() == reflect.Bool {
+				// text and flags as well: two values of the field, everything else equal
+				var ka, kb string
+				if f.Kind() == reflect.String {
+					old := f.String()
+					f.SetString(old + "a")
+					ka = aminoKey(msg)
+					f.SetString(old + "b")
+					kb = aminoKey(msg)
+					f.SetString(old)
+				} else {
+					old := f.Bool()
+					f.SetBool(true)
+					ka = aminoKey(msg)
+					f.SetBool(false)
+					kb = aminoKey(msg)
+					f.SetBool(old)
+				}
+				h.r.Count("oracle:C02/amino/field-injectivity")
+				if ka == kb && !strings.HasPrefix(ka, "panic:") {
+					insensitive = append(insensitive, fmt.Sprintf("%s.%s(two values)", url, st.Type().Field(i).Name))
+				}
+				continue
+			}
 			var pairs [][2]uint64
 			switch f.Kind() {
 			case reflect.Uint64:
